@@ -95,6 +95,7 @@ type Unit struct {
 	shape       *bodyShape // loops / literals of this unit's own body (current tree)
 	goneLoops   []int      // baseline loop ordinals without a counterpart in the current body
 	goneLits    []int
+	capFacts    []capFact // literal units: facts about captured variables handed down by the creating function
 	calleeAlias map[*ast.CallExpr]string // call through a function variable, while dispatched to one of its targets
 	funcConsts  map[string]*types.Func // constants standing for top-level functions used as values
 	clauseFired map[*Clause]bool // assert@ / oncall clauses that met at least one point of the body
@@ -356,6 +357,9 @@ func (e *Engine) RunFunc(fn *types.Func, fc *FuncContract) (ru *Unit) {
 	}()
 	if n := e.staleCallee(fc.Spec); n != "" {
 		panic(engineError(fmt.Sprintf("%s:%d: unknown name %q: the contract mentions a callee that is no function in the repository any more", shortFile(fc.File), fc.Line, n)))
+	}
+	if msg := e.staleChanAnchor(fn, fc.Spec); msg != "" {
+		panic(engineError(fmt.Sprintf("%s:%d: unknown field: %s", shortFile(fc.File), fc.Line, msg)))
 	}
 	sig := fn.Type().(*types.Signature)
 	fr := u.newFrame(fn, sig, fi.decl.Body, fi.pkg.TypesInfo, fi.pkg.Types, fc.Spec, fi.decl.Type)
